@@ -27,10 +27,12 @@ BUDGET = {'quick': 50, 'thorough': 500}
 EXHAUSTIVE = {'quick': False, 'thorough': True}
 EXHAUSTIVE_NOTE = {'quick': '6 master versions (seed-rotated) + all local tables fully enumerated',
                    'thorough': 'every Table B and Table D entry of all bundled master versions and local tables'}
-REQUIRED = {'quick': {'tabled_entries': 2500, 'tableb_entries': 7000, 'random_lists': 20000, 'undefined_cases': 80,
-                      'version_selections': 270, 'roundtrip_ids': 2500},
-            'thorough': {'tabled_entries': 18000, 'tableb_entries': 50000, 'random_lists': 600000,
-                         'undefined_cases': 500, 'version_selections': 800, 'roundtrip_ids': 18000}}
+REQUIRED = {'quick': {'tabled_entries': 2200, 'tableb_entries': 6600, 'random_lists': 9600, 'undefined_cases': 68,
+                      'version_selections': 110, 'roundtrip_ids': 2200},
+            'thorough': {'tabled_entries': 8500, 'tableb_entries': 24000, 'random_lists': 380000, 'undefined_cases': 440,
+                      'version_selections': 330, 'roundtrip_ids': 8500}}
+
+
 MONITORS = ('boundary', 'telemetry')
 
 
